@@ -56,10 +56,10 @@ CLAIMED = {
           "to the header (LOOP_BACK for plain statements), links every collected continue to the header with CONTINUE, returns the collected breaks followed by the normal exit "
           "CFGNode(header, LOOP_FALSE) as LAST element (absent for a literal-true condition) and adds nothing else; analyze_while_stmt analyses the body from "
           "[CFGNode(header, LOOP_TRUE)] with a fresh collector, an else body with the enclosing collector, and lets the else body replace exactly the normal exit; analyze_if_stmt "
-          "analyses each arm from the condition node with its branch kind; BasicGraph._add_one_edge adds the edge iff src != dst, src >= 0 and none exists, and never removes one. "
+          "analyses each arm from the condition node with its branch kind; analyze_dowhile_stmt / analyze_for_stmt analyse their blocks from the right frontiers with the right collectors and close the loop on its own header; BasicGraph._add_one_edge adds the edge iff src != dst, src >= 0 and none exists, and never removes one. "
           "analyze_block (the recursion) is ASSUMED; that every execution is a CFG path is covered only by a bounded stand-in (reported under 'bounded')."),
     note=("Trusted: lianvc + encoding, z3; GIRBlockViewer accessors uninterpreted; networkx has_edge/add_edge as an edge relation. One genuine defect repaired by a fix: commit "
-          "(loop else bodies). Not under contract: for/do-while/switch/try/yield/decl handlers, analyze(), goto."),
+          "(loop else bodies). Not under contract: switch/try/yield/decl handlers, analyze(), goto."),
     design='§4 C04'),
  'C05': dict(
     text=("Proof (partial: the selection step and the scope corrections): on the real code, for all unit summaries and scope tables: Resolver.resolve_symbol_source_decl hands "
